@@ -128,6 +128,8 @@ def shard(ctx):
         if rng.random() < 0.3:
             # suppressed constants
             prog["items"].append(("raw", "#noemit on\nhidden1 = 0x55\n.sub = 2\n#noemit off\nshown = hidden1 + 1\n"))
+        if rng.random() < 0.25:
+            prog["items"].append(("raw", "title = \"abc\"\n.len = 3\n.inner = 4\n..deep = 5\ndebugflag = false\n.level = 2\n#noemit on\n.quiet = 9\n#noemit off\n.after = 7\n"))
         src = G.render(prog)
         if rng.random() < 0.35:
             files, roots = wrap_with_include(rng, src)
